@@ -4,6 +4,7 @@ change (applied to a scratch copy of /repo, never to /repo itself) and record wh
 import json, os, re, shutil, subprocess, sys, tempfile
 VERIF = os.path.dirname(os.path.dirname(os.path.abspath(__file__)))
 pat = sys.argv[1] if len(sys.argv) > 1 and not sys.argv[1].startswith('--') else '.'
+# options: --tier T, --verus-first (skip Kani when the Verus units already report the violation), --verus-only (with --verus-first: never run Kani)
 tier = 'quick'
 if '--tier' in sys.argv:
     tier = sys.argv[sys.argv.index('--tier') + 1]
@@ -21,12 +22,26 @@ for name in sorted(os.listdir(os.path.join(VERIF, 'seeded'))):
         if r.returncode != 0:
             print(name, 'PATCH DOES NOT APPLY', r.stderr[:200])
             continue
-        p = subprocess.run([os.path.join(VERIF, 'check'), prop, '--tier', tier, '--repo', repo], capture_output=True, text=True)
+        note = ''
+        p = None
+        if '--verus-first' in sys.argv:
+            # the Verus units take seconds: if they already report the violation, the Kani part is not run for this seed
+            p = subprocess.run([os.path.join(VERIF, 'check'), prop, '--tier', tier, '--repo', repo], capture_output=True, text=True,
+                               env=dict(os.environ, VERIF_SKIP_KANI='1'))
+            if p.returncode == 1:
+                note = ' (Verus units only: VERIF_SKIP_KANI=1; the Kani harnesses were not run for this seed)'
+            else:
+                p = None
+        if p is None:
+            if '--verus-only' in sys.argv:
+                print('== %s (%s): not decided by the Verus units alone' % (name, prop))
+                continue
+            p = subprocess.run([os.path.join(VERIF, 'check'), prop, '--tier', tier, '--repo', repo], capture_output=True, text=True)
         lines = [l for l in p.stdout.split('\n') if l.startswith(('FAILED-OBLIGATION', 'VIOLATION', 'UNDECIDED', 'OK'))]
         print('== %s (%s, %s): exit %d' % (name, prop, tier, p.returncode))
         for l in lines[:8]:
             print('   ', l[:260])
         with open(os.path.join(d, 'result_%s.txt' % tier), 'w') as f:
-            f.write('./check %s --tier %s on /repo + patch.diff: exit %d\n' % (prop, tier, p.returncode) + '\n'.join(lines) + '\n')
+            f.write('./check %s --tier %s on /repo + patch.diff%s: exit %d\n' % (prop, tier, note, p.returncode) + '\n'.join(lines) + '\n')
     finally:
         shutil.rmtree(scratch, ignore_errors=True)
